@@ -46,19 +46,25 @@ ghost var gCancels int    // watch cancellations received
 ghost var gWatches int    // watches opened
 ghost var gWatchKey string
 ghost var gWatchPrefix bool
+ghost var gWatchOpts int  // options the last watch was opened with
 func (s *syncer) watch(key string, prefix bool) (w clientv3.Watcher, ch clientv3.WatchChan)
-  trusted
   flag allocates
-  modifies gWatches, gWatchKey, gWatchPrefix
+  requires s != nil
+  modifies gWatches, gWatchKey, gWatchPrefix, gWatchOpts
   ensures w != nil && ifaceVal(w) != 0 && gWatches == old(gWatches) + 1 && gWatchKey == key && gWatchPrefix == prefix
+  ensures the-watch-is-opened-on-the-key-itself-and-filters-no-event: gWatchOpts == (prefix ? 1 : 0)
+  ghost at call Watch: gWatches := gWatches + 1
+  ghost at call Watch: gWatchKey := wkey
+  ghost at call Watch: gWatchPrefix := prefix
+  ghost at call Watch: gWatchOpts := len(wopts)
 
 func (s *syncer) run(key string, prefix bool, send func(data map[string]*mvccpb.KeyValue))
-  modifies allof("ghost:github.com/megaease/easegress/pkg/cluster.gCancels"), allof("ghost:github.com/megaease/easegress/pkg/cluster.gChanges"), allof("ghost:github.com/megaease/easegress/pkg/cluster.gPCS"), allof("ghost:github.com/megaease/easegress/pkg/cluster.gPullFailed"), allof("ghost:github.com/megaease/easegress/pkg/cluster.gPulled"), allof("ghost:github.com/megaease/easegress/pkg/cluster.gRead"), allof("ghost:github.com/megaease/easegress/pkg/cluster.gReadErr#typ"), allof("ghost:github.com/megaease/easegress/pkg/cluster.gReadErr#val"), allof("ghost:github.com/megaease/easegress/pkg/cluster.gReadResp"), allof("ghost:github.com/megaease/easegress/pkg/cluster.gTicks"), allof("ghost:github.com/megaease/easegress/pkg/cluster.gWatchKey"), allof("ghost:github.com/megaease/easegress/pkg/cluster.gWatchPrefix"), allof("ghost:github.com/megaease/easegress/pkg/cluster.gWatches"), allof("ghost:github.com/megaease/easegress/pkg/cluster.lastSent"), allof("ghost:github.com/megaease/easegress/pkg/cluster.sentCount")
+  modifies allof("ghost:github.com/megaease/easegress/pkg/cluster.gCancels"), allof("ghost:github.com/megaease/easegress/pkg/cluster.gChanges"), allof("ghost:github.com/megaease/easegress/pkg/cluster.gPCS"), allof("ghost:github.com/megaease/easegress/pkg/cluster.gPullFailed"), allof("ghost:github.com/megaease/easegress/pkg/cluster.gPulled"), allof("ghost:github.com/megaease/easegress/pkg/cluster.gRead"), allof("ghost:github.com/megaease/easegress/pkg/cluster.gReadErr#typ"), allof("ghost:github.com/megaease/easegress/pkg/cluster.gReadErr#val"), allof("ghost:github.com/megaease/easegress/pkg/cluster.gReadResp"), allof("ghost:github.com/megaease/easegress/pkg/cluster.gTicks"), allof("ghost:github.com/megaease/easegress/pkg/cluster.gWatchKey"), allof("ghost:github.com/megaease/easegress/pkg/cluster.gWatchOpts"), allof("ghost:github.com/megaease/easegress/pkg/cluster.gWatchPrefix"), allof("ghost:github.com/megaease/easegress/pkg/cluster.gWatches"), allof("ghost:github.com/megaease/easegress/pkg/cluster.lastSent"), allof("ghost:github.com/megaease/easegress/pkg/cluster.sentCount")
   flag allocates
   requires s != nil && s.cluster != nil
   ensures one-round-at-start-and-one-per-tick-and-per-change: gPCS == old(gPCS) + 1 + (gTicks - old(gTicks)) + (gChanges - old(gChanges))
-  ensures every-cancelled-watch-is-replaced-on-the-same-key: gWatches == old(gWatches) + 1 + (gCancels - old(gCancels)) && gWatchKey == key && gWatchPrefix == prefix
-  invariant[1] gPCS == old(gPCS) + 1 + (gTicks - old(gTicks)) + (gChanges - old(gChanges)) && gWatches == old(gWatches) + 1 + (gCancels - old(gCancels)) && gWatchKey == key && gWatchPrefix == prefix && watcher != nil
+  ensures every-cancelled-watch-is-replaced-on-the-same-key: gWatches == old(gWatches) + 1 + (gCancels - old(gCancels)) && gWatchKey == key && gWatchPrefix == prefix && gWatchOpts == (prefix ? 1 : 0)
+  invariant[1] gPCS == old(gPCS) + 1 + (gTicks - old(gTicks)) + (gChanges - old(gChanges)) && gWatches == old(gWatches) + 1 + (gCancels - old(gCancels)) && gWatchKey == key && gWatchPrefix == prefix && gWatchOpts == (prefix ? 1 : 0) && watcher != nil
   ghost at call pullCompareSend: gPCS := gPCS + 1
   ghost at select-case[2]: gTicks := gTicks + 1
   ghost at select-case[3]: gChanges := gChanges + ((resp.Canceled || (len(resp.Events) == 0 && !resp.Created && resp.CompactRevision == 0 && resp.Header.Revision != 0)) ? 0 : 1)
